@@ -3,7 +3,7 @@
    shortcuts (A@Id, Id@A, 0+A, scalar 0/1, AdjointLinearOperator.H) and fused .gram rules; opeq = same sizes, same forward
    and adjoint values on every input. *)
 From MrVerif Require Import Base.Prelude Base.StarRing Base.Sums Model.OpAlg Model.ElemOps Model.Algebra
-  Proofs.OpAlgProofs Proofs.ElemOpsProofs Proofs.ElemOpsWf Proofs.AlgebraProofs.
+  Proofs.OpAlgProofs Proofs.ElemOpsProofs Proofs.ElemOpsWf Proofs.AlgebraProofs Proofs.BlockAlgProofs.
 
 Theorem C04_sound : forall (R : StarRing) (eq0 eq1 : R -> bool),
   (forall c, eq0 c = true -> c = k0) -> (forall c, eq1 c = true -> c = k1) ->
@@ -35,6 +35,36 @@ Proof.
   - split; [apply vstack_wf; assumption|apply vstack_adjoint; assumption].
 Qed.
 Print Assumptions C04_stacking.
+
+(* ---- operator matrices (LinearOperatorMatrix): the block identities behind __matmul__, .H, & and |, for blocks of every size ---- *)
+(* composition distributes over stacking: (A over B) C = (A C over B C) and A (B beside C) = (A B beside A C) *)
+Theorem C04_block_distribute : forall (R : StarRing) (A B C : linop R),
+  (wf C -> opeq (comp (vstack A B) C) (vstack (comp A C) (comp B C))) /\
+  (wf A -> opeq (comp A (hstack B C)) (hstack (comp A B) (comp A C))).
+Proof. intros R A B C. split; [apply comp_vstack_left|apply comp_hstack_right]. Qed.
+Print Assumptions C04_block_distribute.
+(* a block row times a block column is the sum of the products *)
+Theorem C04_block_row_column : forall (R : StarRing) (A B C D : linop R), wf A -> wf B -> wf C -> wf D ->
+  dom A = ran C -> dom B = ran D -> ran A = ran B -> dom C = dom D ->
+  opeq (comp (hstack A B) (vstack C D)) (lsum (comp A C) (comp B D)).
+Proof. exact comp_row_column. Qed.
+Print Assumptions C04_block_row_column.
+(* .H of an operator matrix transposes the blocks and takes their adjoints *)
+Theorem C04_block_transpose : forall (R : StarRing) (A B : linop R),
+  opeq (adjop (vstack A B)) (hstack (adjop A) (adjop B)) /\ opeq (adjop (hstack A B)) (vstack (adjop A) (adjop B)).
+Proof. intros R A B. split; [apply adjop_vstack|apply adjop_hstack]. Qed.
+Print Assumptions C04_block_transpose.
+(* the 2 x 2 matrix product, one block column: [[A, B], [C, D]] [[E], [G]] = [[A E + B G], [C E + D G]] *)
+Theorem C04_block_product : forall (R : StarRing) (A B C D E G : linop R), wf A -> wf B -> wf C -> wf D -> wf E -> wf G ->
+  dom A = ran E -> dom B = ran G -> dom C = ran E -> dom D = ran G -> dom E = dom G -> ran A = ran B -> ran C = ran D ->
+  forall x i, (i < ran A + ran C)%nat ->
+    fwd (comp (vstack (hstack A B) (hstack C D)) (vstack E G)) x i
+    = fwd (vstack (lsum (comp A E) (comp B G)) (lsum (comp C E) (comp D G))) x i.
+Proof. exact block_column_product. Qed.
+Print Assumptions C04_block_product.
+(* non-vacuity: identity blocks meet every hypothesis *)
+Example C04_block_example : forall R : StarRing, let I2 := idop (R:=R) 2 in wf I2 /\ dom I2 = ran I2.
+Proof. intros R I2. split; [apply idop_wf|reflexivity]. Qed.
 
 (* the executed instance: Gaussian integers with decidable equality *)
 Definition geq0 (c : G) : bool := (fst c =? 0) && (snd c =? 0).
